@@ -2593,12 +2593,15 @@ static bool parse_next(TokenContext &ctx, Chunk &pc, const Chunk *prev_pc)
    // see if we have a punctuator
    char punc_txt[7];
 
-   punc_txt[0] = ctx.peek();
-   punc_txt[1] = ctx.peek(1);
-   punc_txt[2] = ctx.peek(2);
-   punc_txt[3] = ctx.peek(3);
-   punc_txt[4] = ctx.peek(4);
-   punc_txt[5] = ctx.peek(5);
+   for (size_t idx = 0; idx < 6; idx++)
+   {
+      // every punctuator is plain ASCII: a character beyond that ends the
+      // candidate, it must not pass as its low byte (U+012B is not a '+')
+      size_t ch = ctx.peek(idx);
+
+      punc_txt[idx] = (ch < 0x80) ? static_cast<char>(ch) : '\0';
+   }
+
    punc_txt[6] = '\0';
    const chunk_tag_t *punc;
 
